@@ -69,6 +69,13 @@ Theorem C01_billing_roundtrip : forall s, wf_state s -> accepts leg (ds_settings
 Proof. intros s Hwf Hacc. exact (billing_roundtrip_l cur leg s Hwf legacy_dev_leaf_ok Hacc). Qed.
 Print Assumptions C01_billing_roundtrip.
 
+(* any document the class reads at all (written by this package or not): the object it yields writes a document
+   that reads back to an object which restores everything -- reloaded models are fixed points *)
+Theorem C01_daily_reload_stable : forall c d s, from_doc' c d = Some s ->
+  exists s', from_doc' c (to_doc c s) = Some s' /\ restores' c s s'.
+Proof. intros c d s. exact (reload_stable_l cur leg c d s legacy_dev_leaf_ok). Qed.
+Print Assumptions C01_daily_reload_stable.
+
 (* DailyModel of any profile: the exact guard is that the *current* settings class accepts the stored tree *)
 Theorem C01_daily_roundtrip_partial : forall p s, wf_state s -> class_of p = Daily ->
   (C01_daily_holds p s <-> accepts cur (ds_settings s) = true).
